@@ -13,10 +13,7 @@ theorem render_append (c : Compiler) (is1 is2 : List Item) :
 theorem analyze_render_of (c : Compiler) (is : List Item) (h : ∀ i ∈ is, WFItem c i)
     (hf : findAll (matcher c) (render c is) = expected c is) :
     analyze c [] (render c is) = ⟨false, groupByFile (expected c is)⟩ := by
-  have h1 : crashSearch c (render c is) = false := by
-    have := crashSearch_render c is [] h
-    simp only [List.append_nil] at this
-    rw [this]; exact crashSearch_nil c
+  have h1 : crashSearch c (render c is) = false := crashSearch_render_nil c is h
   have h2 : c = .groovyc → stackOverflowSearch (render c is) = false := by
     intro hc; subst hc
     have := stackOverflowSearch_render is [] h
